@@ -305,7 +305,20 @@ def _drop_param_aliases(fnode):
             n.id = table[n.id]
 
 
+class _DebugIf(ast.NodeTransformer):
+    """C5: `if __debug__: body` -> body (the analysed configuration is the
+    one in which assert statements are active, which is also what every rule
+    assumes when it reads an assert as a guard)."""
+
+    def visit_If(self, node):
+        self.generic_visit(node)
+        if isinstance(node.test, ast.Name) and node.test.id == "__debug__":
+            return node.body
+        return node
+
+
 def canonicalise(tree):
+    _DebugIf().visit(tree)
     _subst_consts(tree)
     for n in ast.walk(tree):
         if isinstance(n, (ast.FunctionDef, ast.AsyncFunctionDef)):
